@@ -305,6 +305,8 @@ def run_unit(udesc, tier="quick", timeout_ms=None, known=None):
     except Undecided as e:
         out["status"] = "undecided"
         out["reason"] = str(e)
+        if os.environ.get("VERIF_DEBUG"):
+            out["reason"] += "\n" + "".join(traceback.format_exception(type(e), e, e.__traceback__))[-2500:]
         out["wall_s"] = round(time.time() - t0, 3)
         return out
     except Exception as e:  # checker crash
